@@ -42,7 +42,7 @@ func genC14(t *rapid.T) C14Case {
 	n := rapid.IntRange(1, 14).Draw(t, "nops")
 	for i := 0; i < n; i++ {
 		op := C14Op{}
-		switch k := kit.Uniform(t, 24, "opkind"); {
+		switch k := kit.Uniform(t, 27, "opkind"); {
 		case k < 5:
 			op.Op = "submit1"
 		case k < 11:
@@ -57,6 +57,17 @@ func genC14(t *rapid.T) C14Case {
 		case k < 22:
 			op.Op = "parents"
 			op.IDSel = rapid.IntRange(0, 7).Draw(t, "which")
+		case k < 24:
+			// a block confirming part of the pool and, as the very next pool
+			// access, a set that conflicts with a surviving pool member
+			op.Op = "mineconflict"
+			op.Mut = rapid.IntRange(1, 3).Draw(t, "prefix")
+			op.IDKind = kit.Uniform(t, 4, "v1orv2") // 0: v1 set, else v2
+			op.Conflict = rapid.IntRange(1, 3).Draw(t, "conflict")
+			ni := rapid.IntRange(1, 3).Draw(t, "nintents")
+			for j := 0; j < ni; j++ {
+				op.Intents = append(op.Intents, kit.GenIntent(t, []string{"pay", "pay", "sf", "arb"}, 0))
+			}
 		default:
 			op.Op = "mine"
 		}
@@ -593,6 +604,140 @@ func runC14(c C14Case, cs *kit.CaseStats) error {
 				}
 			}
 
+		case "mineconflict":
+			v2 := op.IDKind%4 != 0
+			if v2 && L.Height()+2 < tr.Network.HardforkV2.AllowHeight || !v2 && L.Height()+2 >= tr.Network.HardforkV2.RequireHeight {
+				continue
+			}
+			k1, k2 := min(op.Mut, len(before.v1)), min(op.Mut, len(before.v2))
+			salt++
+			b := kit.AssembleBlock(L.State, L.Block.Timestamp.Add(1e9), kit.Actors[0].Addr, before.v1[:k1], before.v2[:k2], salt)
+			nl, err := L.Apply(b, nil)
+			if err != nil {
+				continue // whether the pool is minable is C05's business
+			}
+			sur1, sur2 := before.v1[k1:], before.v2[k2:]
+			// a surviving pool member spending an element that is on chain after the block
+			var victim *types.SiacoinElement
+			var victimID types.TransactionID
+			for _, p := range sur2 {
+				if len(p.SiacoinInputs) > 0 {
+					if e, ok := nl.SCE[p.SiacoinInputs[0].Parent.ID]; ok {
+						e = e.Copy()
+						victim, victimID = &e, p.ID()
+						break
+					}
+				}
+			}
+			if victim == nil {
+				for _, p := range sur1 {
+					if len(p.SiacoinInputs) > 0 {
+						if e, ok := nl.SCE[p.SiacoinInputs[0].ParentID]; ok {
+							e = e.Copy()
+							victim, victimID = &e, p.ID()
+							break
+						}
+					}
+				}
+			}
+			if victim == nil || kit.ActorOf(victim.SiacoinOutput.Address) < 0 {
+				// nothing to conflict with: behave like a plain partial mine
+				if err := node.CM.AddBlocks([]types.Block{b}); err != nil {
+					return fmt.Errorf("%s: block accepted by the reference was rejected: %v", where, err)
+				}
+				L = nl
+				continue
+			}
+			who := kit.ActorOf(victim.SiacoinOutput.Address)
+			bb := kit.NewBlockBuilder(nl)
+			bb.Absorb(sur1, sur2)
+			bb.DropEphemeral()
+			for _, in := range op.Intents {
+				in.V2 = v2
+				if !v2 && (in.Kind == "arb" || in.Kind == "attest" || in.Kind == "foundation") {
+					in.Kind = "pay"
+				}
+				bb.Add(in)
+			}
+			var set1 []types.Transaction
+			var set2 []types.V2Transaction
+			var ids []types.TransactionID
+			if v2 {
+				txn := types.V2Transaction{SiacoinInputs: []types.V2SiacoinInput{{Parent: *victim}}, SiacoinOutputs: []types.SiacoinOutput{{Address: kit.Actors[(who+1)%kit.NumActors].Addr, Value: victim.SiacoinOutput.Value}}, ArbitraryData: []byte(fmt.Sprintf("conflict-%d", oi))}
+				kit.SignV2(nl.State, &txn)
+				pos := min(op.Conflict-1, len(bb.V2Txns))
+				set2 = append(append(append(set2, bb.V2Txns[:pos]...), txn), bb.V2Txns[pos:]...)
+				for _, t := range set2 {
+					ids = append(ids, t.ID())
+				}
+			} else {
+				txn := kit.V1Spend(nl.State, *victim, who, (who+1)%kit.NumActors, oi)
+				pos := min(op.Conflict-1, len(bb.Txns))
+				set1 = append(append(append(set1, bb.Txns[:pos]...), txn), bb.Txns[pos:]...)
+				for _, t := range set1 {
+					ids = append(ids, t.ID())
+				}
+			}
+			// the block, and straight afterwards (no pool query in between) the set
+			if err := node.CM.AddBlocks([]types.Block{b}); err != nil {
+				return fmt.Errorf("%s: block accepted by the reference was rejected: %v", where, err)
+			}
+			L = nl
+			for _, t := range before.v1[:k1] {
+				confirmed = append(confirmed, t.ID())
+			}
+			for _, t := range before.v2[:k2] {
+				confirmed = append(confirmed, t.ID())
+			}
+			var knownRet bool
+			var serr error
+			if v2 {
+				knownRet, serr = node.CM.AddV2PoolTransactions(L.Index(), set2)
+			} else {
+				knownRet, serr = node.CM.AddPoolTransactions(set1)
+			}
+			after := viewPool(node)
+			_, v1ok := after.ids1[victimID]
+			_, v2ok := after.ids2[victimID]
+			where = fmt.Sprintf("%s mined %d+%d of %d+%d, then at once a %d-member set (v2=%v) whose member %d double-spends an input of the surviving pool transaction %v -> known=%v err=%v", where, k1, k2, len(before.v1), len(before.v2), len(ids), v2, min(op.Conflict, len(ids)), victimID, knownRet, serr)
+			if !v1ok && !v2ok {
+				cs.Class("mineconflict:victim-not-pooled-afterwards")
+				continue
+			}
+			cs.Class("conflicting-set-right-after-a-partly-confirming-block")
+			if k1+k2 > 0 {
+				cs.NonTrivial()
+			}
+			if serr == nil {
+				return fmt.Errorf("%s: the set was accepted although the pool still holds %v", where, victimID)
+			}
+			if knownRet {
+				return fmt.Errorf("%s: known=true together with an error", where)
+			}
+			for _, id := range ids {
+				_, ok1 := after.ids1[id]
+				_, ok2 := after.ids2[id]
+				if ok1 || ok2 {
+					return fmt.Errorf("%s: the set was rejected but its member %v is in the pool", where, id)
+				}
+			}
+			// survivors are only owed if they are still valid on top of the block
+			salt++
+			if _, verr := nl.Apply(kit.AssembleBlock(nl.State, nl.Block.Timestamp.Add(1e9), kit.Actors[0].Addr, sur1, sur2, salt), nil); verr != nil {
+				cs.Class("mineconflict:survivors-not-all-valid-after-the-block")
+				continue
+			}
+			for _, t := range sur1 {
+				if _, ok := after.ids1[t.ID()]; !ok {
+					return fmt.Errorf("%s: the set was rejected but the pooled v1 transaction %v, untouched by the block, is gone", where, t.ID())
+				}
+			}
+			for _, t := range sur2 {
+				if _, ok := after.ids2[t.ID()]; !ok {
+					return fmt.Errorf("%s: the set was rejected but the pooled v2 transaction %v, untouched by the block, is gone", where, t.ID())
+				}
+			}
+
 		case "mine":
 			salt++
 			ts := L.Block.Timestamp.Add(1e9)
@@ -658,7 +803,7 @@ func listedAreRetrievable(n *kit.Node) error {
 
 var c14Prop = kit.Prop[C14Case]{
 	ID:   "C14",
-	Rule: "stateful sequences (1..14 ops) over one manager on a short base chain in three regimes (v1+v2 overlap, v2 only, v1 only): submit v1 / v2 sets built against the tip's reference ledger (fresh, with a prefix of already pooled transactions, with a member that is valid against the tip but double-spends a pooled input at a drawn position, with a member carrying an invalid signature at a drawn position), look up ids drawn from pooled v1, pooled v2, confirmed and random ids through BOTH lookup calls, mutate and reorder everything pool queries return, scribble over submitted v2 transactions, mine the pool. Oracle: rejected ⇒ pool id set unchanged; accepted ⇒ superset containing every member; known ⇔ every member was pooled before; lookups return exactly the pooled transaction of that kind or absence; no mutation of returned or submitted values is visible in a fresh query. Non-trivial = a pool-conflicting member at position >= 2, or a lookup on a pool holding both kinds; distinct by hash of the case.",
+	Rule: "stateful sequences (1..14 ops) over one manager on a short base chain in three regimes (v1+v2 overlap, v2 only, v1 only): submit v1 / v2 sets built against the tip's reference ledger (fresh, with a prefix of already pooled transactions, with a member that is valid against the tip but double-spends a pooled input at a drawn position, with a member carrying an invalid signature at a drawn position), look up ids drawn from pooled v1, pooled v2, confirmed and random ids through BOTH lookup calls, mutate and reorder everything pool queries return, scribble over submitted v2 transactions, mine the pool or a prefix of it, and 'mineconflict': a block confirming a prefix of the pool followed, with no pool query in between, by a set one of whose members double-spends an input of a surviving pool member (must be rejected as a whole, survivors stay). Oracle: rejected ⇒ pool id set unchanged; accepted ⇒ superset containing every member; known ⇔ every member was pooled before; lookups return exactly the pooled transaction of that kind or absence; no mutation of returned or submitted values is visible in a fresh query. Non-trivial = a pool-conflicting member at position >= 2, or a lookup on a pool holding both kinds; distinct by hash of the case.",
 	Assumptions: []string{
 		"sets respect the documented precondition: an element that is not on chain is created by an earlier member of the same set",
 		"pools stay far below the 10-block weight limit (eviction belongs to C05)",
